@@ -92,7 +92,8 @@ def mutate(rng, data, corpus):
 def judge(res, outs, specname):
     """Classify one flex run.  Returns (kind, detail) or None when everything is fine."""
     err = res.err.decode("latin1")
-    if res.timed_out:
+    if res.timed_out or res.rc in (-24, 152):
+        # wall-clock watchdog or our own RLIMIT_CPU (SIGXCPU): a progress question, not a crash
         return ("hang", "no result within the progress bound")
     if res.rc is not None and res.rc < 0:
         return ("signal", "flex died of signal %d; stderr: %s" % (-res.rc, err[-600:]))
@@ -171,7 +172,7 @@ def fuzz_worker(args):
         if v and v[0] == "hang":
             if len(data) <= 4096:
                 res2 = util.run(cmd, cwd=d, env=env, timeout=120, cpu_s=90)
-                if res2.timed_out or res2.rc in (152, 137):
+                if res2.timed_out or res2.rc in (152, 137, -24, -9):
                     v = ("hang", "input of %d bytes: no result within 90 CPU-seconds (twice)" % len(data))
                 else:
                     v = judge(res2, [] if own else outs, spec)
@@ -215,13 +216,34 @@ def limit_specs():
     L.append(("many_scs_3000", "".join("%%x C%d\n" % i for i in range(3000)) + "%%\n<C7>x ;\n%%\n", []))
     L.append(("many_defs_5000", "".join("D%d a%d\n" % (i, i) for i in range(5000)) + "%%\n{D77} ;\n%%\n", []))
     L.append(("nfa_blowup", "%%\n" + "(a|b)*a" + "(a|b)" * 14 + " ;\n%%\n", []))
+    # single very long tokens in every place user code is copied from
+    L.append(("action_string_300k", "%%\nx { const char *s = \"" + "s" * 300000 + "\"; (void) s; }\n%%\n", []))
+    L.append(("action_word_20k", "%%\nx { int " + "v" * 20000 + " = 0; }\n%%\n", []))
+    L.append(("action_oneline_100k", "%%\nx return 1" + " + 1" * 25000 + ";\n%%\n", []))
+    L.append(("codeblock_line_100k", "%{\n/* " + "c" * 100000 + " */\n%}\n%%\nx ;\n%%\n", []))
+    L.append(("indented_line_100k", " /* " + "i" * 100000 + " */\n%%\nx ;\n%%\n", []))
+    L.append(("top_line_100k", "%top{\n/* " + "t" * 100000 + " */\n}\n%%\nx ;\n%%\n", []))
+    L.append(("sect3_line_300k", "%%\nx ;\n%%\n/* " + "z" * 300000 + " */\n", []))
+    L.append(("action_comment_100k", "%%\nx { /* " + "k" * 100000 + " */ }\n%%\n", []))
+    L.append(("parens_20000", "%%\n" + "(" * 20000 + "a" + ")" * 20000 + " ;\nb ;\n%%\n", []))
+    L.append(("alt_chain_20000", "%%\n" + "|".join(["a"] * 20000) + " ;\n%%\n", []))
+    L.append(("cat_groups_12000", "%%\n" + "(a)" * 12000 + " ;\n%%\n", []))
     L.append(("empty", "", []))
     L.append(("only_marker", "%%", []))
     L.append(("nul_bytes", "%%\n\x00\x00 ;\n%%\n", []))
     L.append(("cr_lines", "%option noyywrap\r\n%%\r\na ;\r\n%%\r\n", []))
     L.append(("yylmax_0", "%option yylmax=0\n%array\n%%\na ;\n%%\n", []))
     L.append(("bufsize_huge", "%option bufsize=99999999999\n%%\na ;\n%%\n", []))
-    return L
+    # completeness oracle: the last line of the user-code section must reach the output
+    out = []
+    for name, text, opts in L:
+        if text.endswith("%%\n") or name == "sect3_line_300k":
+            text += SENTINEL + "\n"
+        out.append((name, text, opts))
+    return out
+
+
+SENTINEL = "int vf_end_of_specification_sentinel;"
 
 
 def limits(chk):
@@ -257,6 +279,16 @@ def limits(chk):
         else:
             chk.feat1("limit_accepted")
             chk.extra.setdefault("limit_messages", {})[name] = "(accepted)"
+            if not v and SENTINEL in open(spec, encoding="latin1").read():
+                try:
+                    gen_txt = open(out, encoding="latin1").read()
+                except OSError:
+                    gen_txt = ""
+                if SENTINEL not in gen_txt:
+                    v = ("incomplete-output", "exit 0 but the scanner lacks the last line of the "
+                         "specification's user code; stderr: %s" % err[-300:])
+                else:
+                    chk.feat1("limit_output_complete")
         if v:
             def save(dst, spec=spec, cmd=cmd, err=err):
                 if os.path.getsize(spec) < 200000:
